@@ -1488,7 +1488,7 @@ impl Property for C13 {
     type Scenario = Scenario;
 
     fn rule() -> String {
-        "seeded timelines: a server host (1-2 addresses, v4 or v6) with 1-2 listeners (wildcard or specific, backlog 1-4) and 1-2 client hosts; 1-5 (thorough 1-8) connections started 0-3 rounds apart (up to 4 concurrent) or after a gap (sequential), to a listener or to a port nobody listens on, from another host or from the server host itself; per connection a seeded list of client actions (cancel the pending connect at round +0..4, write 1/8/100 bytes, read, shutdown, drop) and, after a blocking accept armed at round +0..6 (or never), of accepted-end actions; optional listener drop at a seeded round; retx_threshold 2-3, retx_max 3-5. Faults: for each seeded timeline the fault-free packet sequence is recorded and the timeline is re-run once per packet position with that packet dropped and once with it delayed by retx_threshold+1 rounds (quick: positions < 24, thorough: < 48, thorough also delay 1); a quarter of the timelines carry a seeded multi-fault plan (<= retx_max-2 drops, delays) and an eighth deliver each round's packets in reverse order. Oracle: connect Ok iff a listener was bound during the whole attempt and the backlog certainly had room, ConnectionRefused iff nothing listened, not Ok when the backlog was certainly full, and never more established-but-unaccepted connections per listener than its backlog (fault-free runs; a seventh of the timelines are backlog-pressure shapes: sequential connectors beyond the backlog, or a partly filled accept queue plus a burst of simultaneous connectors, accepts only after the late comers gave up); every accepted stream matches exactly one attempt with mirrored addresses, every connection the connector saw established is handed out exactly once; after both ends of everything are closed and the wire stayed empty for Q = retx_threshold*(retx_max+2) rounds socket_counts(host) equals the listeners still open (checkpoint A) resp. zero after the listeners are dropped (B); a third of the runs then re-bind the listener addresses, rotate the client's ephemeral cursor once round the range and re-connect over the same 4-tuples (C, D). Non-trivial: some end closed/cancelled/shut down while its peer was not Established, or a listener was dropped with an un-accepted connection; distinct = digest of action kinds with the peer state at each close and outcome kinds. Added later: concurrent acceptor tasks with their own wakers, connect futures re-polled with a new waker, receive caps of 64-1000 bytes with 3-9 KB writes, one-way black holes; two listeners on one port under two addresses; backlog room that appears (by accepts) while the connector still retransmits its SYN obliges the connect to succeed; every port handed out while the allocator is rotated must lie in the ephemeral range.".into()
+        "seeded timelines: a server host (1-2 addresses, v4 or v6) with 1-2 listeners (wildcard or specific, backlog 1-4) and 1-2 client hosts; 1-5 (thorough 1-8) connections started 0-3 rounds apart (up to 4 concurrent) or after a gap (sequential), to a listener or to a port nobody listens on, from another host or from the server host itself; per connection a seeded list of client actions (cancel the pending connect at round +0..4, write 1/8/100 bytes, read, shutdown, drop) and, after a blocking accept armed at round +0..6 (or never), of accepted-end actions; optional listener drop at a seeded round; retx_threshold 2-3, retx_max 3-5. Faults: for each seeded timeline the fault-free packet sequence is recorded and the timeline is re-run once per packet position with that packet dropped and once with it delayed by retx_threshold+1 rounds (quick: positions < 24, thorough: < 48, thorough also delay 1); a quarter of the timelines carry a seeded multi-fault plan (<= retx_max-2 drops, delays) and an eighth deliver each round's packets in reverse order. Oracle: connect Ok iff a listener was bound during the whole attempt and the backlog certainly had room, ConnectionRefused iff nothing listened, not Ok when the backlog was certainly full, and never more established-but-unaccepted connections per listener than its backlog (fault-free runs; a seventh of the timelines are backlog-pressure shapes: sequential connectors beyond the backlog, or a partly filled accept queue plus a burst of simultaneous connectors, accepts only after the late comers gave up); every accepted stream matches exactly one attempt with mirrored addresses, every connection the connector saw established is handed out exactly once; after both ends of everything are closed and the wire stayed empty for Q = retx_threshold*(retx_max+2) rounds socket_counts(host) equals the listeners still open (checkpoint A) resp. zero after the listeners are dropped (B); a third of the runs then re-bind the listener addresses, rotate the client's ephemeral cursor once round the range and re-connect over the same 4-tuples (C, D). Non-trivial: some end closed/cancelled/shut down while its peer was not Established, or a listener was dropped with an un-accepted connection; distinct = digest of action kinds with the peer state at each close and outcome kinds. Added later: concurrent acceptor tasks with their own wakers, connect futures re-polled with a new waker, receive caps of 64-1000 bytes with 3-9 KB writes, one-way black holes; two listeners on one port under two addresses; backlog room that appears (by accepts) while the connector still retransmits its SYN obliges the connect to succeed; every port handed out while the allocator is rotated must lie in the ephemeral range. Round 11: a stream is let go as a whole, as a forget-ed owned write half followed by the read half, or after split + reunite.".into()
     }
     fn components_real() -> Vec<&'static str> {
         vec!["turmoil-net: kernel::tcp (handshake, accept_syn backlog, on_close, reap_closed, abort paths, retransmit), SocketTable (binding + connection index, PortAllocator), shim TcpListener / TcpStream (FdGuard on cancelled connect), netstat, verif::socket_counts hook"]
